@@ -106,7 +106,8 @@ Fixpoint solves_ok (p : Q) (maxit : nat) (old : stored) (l : list (list iter * o
   | [] => true
   | (script, eo, es, en) :: r =>
       let '(o, st, n) := solve p maxit old script in
-      (outcome_eqb o eo && stored_eqb st es && Nat.eqb n en && solves_ok p maxit st r)%bool
+      (* every solve starts from the scalar nan again (Unit.solve resets _old_results): nothing is carried over from the previous solve *)
+      (outcome_eqb o eo && stored_eqb st es && Nat.eqb n en && solves_ok p maxit SNan r)%bool
   end.
 Fixpoint smismatches (cases : list (Q * nat * list (list iter * outcome * stored * nat))) (i : nat) : list nat :=
   match cases with
